@@ -1,4 +1,4 @@
 SPECIFICATION Spec
-CONSTANTS S1 = 5 S2 = 0 S3 = 0  MaxV = 3  Start = "P"  Strict = FALSE  Cross = FALSE  Close = FALSE  LabelBoundary = FALSE
+CONSTANTS S1 = 5 S2 = 0 S3 = 0  MaxV = 3  Start = "P"  Strict = FALSE  Cross = FALSE  Close = FALSE  LabelBoundary = FALSE  RankByArray = FALSE  Coarse = 1
 CHECK_DEADLOCK FALSE
 INVARIANT NaiveEq
